@@ -27,11 +27,15 @@
  ],
  'kf': ['C11_strto_0x_nohex'], 'kf_probe_case': {'C11_strto_0x_nohex': {'BASE': 16}},
  'witness': {'unwind': 9},
+ 'fallback': 'ghost-free',   # c11_strto_harness.h runs the reference machine as a plain loop there
  'assumptions': ['strto*: every character the ISO 7.22.1.4 automaton has to inspect lies inside the text object (SPEC_NEED in spec/c11_strto_ref.h; satisfied by every NUL-terminated string and by the object that ends exactly at the first unconsumable character)'],
 } @*/
 #include "vc.h"
 #include "c11_libc_env.h"
 #include "c11_strto_ref.h"
+/* the sibling conversion is part of the translation unit: a strtoimax that delegates to it is then still decided (bounded fallback) */
+#include <igris/util/errno.h> /* strtoumax.c calls SET_ERRNO without including its header */
+#include "compat/libc/inttypes/strtoumax.c"
 #define strtoimax vc_strtoimax
 #include "compat/libc/inttypes/strtoimax.c"
 #undef strtoimax
